@@ -318,7 +318,7 @@ def install_hooks(ex, cx):
             ex.safety(st, 'matcher-pos-in-range', node, And(0 <= pos, pos <= N))
             ok = re_ok(fv.pid, pos)
             st.assume(Implies(ok, And(pos <= re_end(fv.pid, pos), re_end(fv.pid, pos) <= N, reach(re_end(fv.pid, pos)))))
-            return Opaque('match', pid=fv.pid, pos=pos, truth=ok)
+            return Opaque('match', pid=fv.pid, pos=pos, truth=ok, is_none=Not(ok))       # a match object, or None
         if isinstance(fv, z3.ExprRef) and fv.sort() == Val:
             # user callable (predicate / |> function): pure, total, one argument
             if len(node.args) != 1 or node.keywords:
